@@ -221,6 +221,8 @@ pub(crate) mod alloc {
         /// Compute a FFT over a coset of the domain, modifying the input vector
         /// in place.
         fn coset_fft_in_place(&self, coeffs: &mut Vec<BlsScalar>) {
+            #[cfg(feature = "verif")]
+            crate::verif::sched_point("fft.coset_fft", coeffs.len());
             Self::distribute_powers(coeffs, GENERATOR);
             self.fft_in_place(coeffs);
         }
@@ -484,6 +486,8 @@ pub(crate) mod alloc {
         mut w: BlsScalar,
     ) {
         debug_assert_eq!(left.len(), right.len());
+        #[cfg(feature = "verif")]
+        crate::verif::sched_point("fft.butterfly_range", left.as_ptr() as usize);
 
         for (left, right) in left.iter_mut().zip(right) {
             let mut t = *right;
